@@ -96,8 +96,16 @@ func alphabet(k Kind, slice bool) []Op {
 		}
 	}
 	// per-parent argument lists for Append/Replace
+	syms := allSyms
+	dsyms, dpairs := keyedSyms, deletePairs
+	if k.polymorphic() {
+		// 9: the record owned by an owner of another polymorphic type with the same key
+		syms = append(append([]int{}, allSyms...), 9)
+		dsyms = append(append([]int{}, keyedSyms...), 9)
+		dpairs = append(append([][]int{}, deletePairs...), []int{1, 9}, []int{2, 9})
+	}
 	var perParent [][]int
-	for _, s := range allSyms {
+	for _, s := range syms {
 		if s == 4 && slice && !k.single() {
 			// slice of parents x collection relation: the keyed-but-unstored
 			// record is left to the single-parent configurations
@@ -110,6 +118,9 @@ func alphabet(k Kind, slice bool) []Op {
 			perParent = append(perParent, []int{1, 3}, []int{3, 3})
 		} else {
 			perParent = append(perParent, singlePairs...)
+			if k.polymorphic() {
+				perParent = append(perParent, []int{1, 9}, []int{9, 3})
+			}
 		}
 	}
 	var argLists [][][]int
@@ -137,10 +148,10 @@ func alphabet(k Kind, slice bool) []Op {
 		add("Replace", al, true)
 	}
 	add("Replace", nil, true)
-	for _, s := range keyedSyms {
+	for _, s := range dsyms {
 		add("Delete", [][]int{{s}}, true)
 	}
-	for _, p := range deletePairs {
+	for _, p := range dpairs {
 		add("Delete", [][]int{p}, true)
 	}
 	add("Clear", nil, true)
@@ -173,10 +184,11 @@ func str(s string) sql.NullString { return sql.NullString{String: s, Valid: true
 
 func initialModel(k Kind) *Model {
 	m := &Model{Links: map[Link]bool{{pA, 1}: true, {pC, 2}: true}, Rows: map[uint]TRow{}}
-	m.Rows[1] = TRow{ID: 1, Name: "t1", One: i64(1), Many: i64(1), PolyID: i64(1), PolyType: str(polyValue)}
-	m.Rows[2] = TRow{ID: 2, Name: "t2", One: i64(3), Many: i64(3), PolyID: i64(3), PolyType: str(polyValue)}
-	m.Rows[3] = TRow{ID: 3, Name: "t3", PolyType: str("")}
-	m.Rows[9] = TRow{ID: 9, Name: "decoy", PolyID: i64(1), PolyType: str("other")}
+	m.Rows[1] = TRow{ID: 1, Name: "t1", One: i64(1), Many: i64(1), PolyID: i64(1), PolyType: str(polyValue), SoloID: i64(1), SoloType: str(polyValue)}
+	m.Rows[2] = TRow{ID: 2, Name: "t2", One: i64(3), Many: i64(3), PolyID: i64(3), PolyType: str(polyValue), SoloID: i64(3), SoloType: str(polyValue)}
+	m.Rows[3] = TRow{ID: 3, Name: "t3", PolyType: str(""), SoloType: str("")}
+	m.Rows[20] = TRow{ID: 20, Name: "sentinel", PolyType: str(""), SoloType: str("")}
+	m.Rows[9] = TRow{ID: 9, Name: "t9", PolyID: i64(1), PolyType: str("other"), SoloID: i64(1), SoloType: str("other")}
 	return m
 }
 
@@ -198,7 +210,7 @@ func newRow(id uint, sym int) TRow {
 	if sym != 0 {
 		name = fmt.Sprintf("t%d", sym)
 	}
-	return TRow{ID: id, Name: name, One: i64(0), PolyID: i64(0), PolyType: str("")}
+	return TRow{ID: id, Name: name, One: i64(0), PolyID: i64(0), PolyType: str(""), SoloID: i64(0), SoloType: str("")}
 }
 
 func (m *Model) links() []Link {
@@ -324,6 +336,15 @@ func (m *Model) step(k Kind, ps []uint, op Op, res [][]uint) (ambiguous string) 
 					}
 				}
 				m.Links[Link{p, t}] = true
+				// a record taken over from an owner of a foreign polymorphic type
+				// now carries this owner type
+				if r := m.Rows[t]; k == Poly {
+					r.PolyType = str(polyValue)
+					m.Rows[t] = r
+				} else if k == PolyOne {
+					r.SoloType = str(polyValue)
+					m.Rows[t] = r
+				}
 			}
 		}
 	case op.Code == "Delete":
@@ -373,13 +394,13 @@ func placeholderRes(op Op) [][]uint {
 }
 
 // maxNew: how many records created from key-less values may be stored at the
-// same time (their keys are >= 10). Keeps the state space finite.
+// same time (their keys are > 20). Keeps the state space finite.
 var maxNew = 1
 
 func (m *Model) aliveNew() int {
 	n := 0
 	for id := range m.Rows {
-		if id >= 10 {
+		if id > 20 {
 			n++
 		}
 	}
@@ -443,6 +464,9 @@ func argClasses(k Kind, ps []uint, m *Model, op Op) string {
 			c = append(c, "other")
 		}
 		if len(c) == 0 {
+			if r := m.Rows[t]; (k == Poly && r.PolyType.String == "other" && r.PolyID.Int64 != 0) || (k == PolyOne && r.SoloType.String == "other" && r.SoloID.Int64 != 0) {
+				return "foreign-type"
+			}
 			return "free"
 		}
 		return strings.Join(c, "+")
